@@ -117,6 +117,20 @@ CHECKS = {
         "depth 1 (2 in the thorough tier).",
         "3/C14",
     ),
+    "C04": (
+        "exploration",
+        "placement-lattice+route-forcing+solid",
+        "bounded-exhaustive enumeration of shape pairs x placements x orientations x sizes, every internal decision route forced in turn, "
+        "judged by an independent exact solid-geometry oracle on the raw meshes",
+        "All ordered pairs of {box, cylinder, cone, spheroid, two-body mesh, L mesh} x placement lattice (apart / gap 0.05 / overlap / deep / "
+        "nested in cavities) x orientations x sizes, and the same objects against 7-9 containers (box, convex / non-convex / hollow mesh "
+        "volumes, polygon footprint with hole, intersection and difference regions): Object.intersects, the operators and requirement "
+        "classes, containsObject and minimumDistanceTo agree with models/solid.py on every case with |margin| >= 1e-4, for each of 11-14 "
+        "internal routes (each early-exit pass disabled in turn, the deciding pass observed with sys.monitoring).",
+        "Trusted: models/solid.py (segment-triangle, ray-parity with 8 generic rays cross-checked against winding number and closed forms at "
+        "start-up, exact surface distance). numpy's global seed is fixed before each evaluation because containsObject samples internally.",
+        "3/C04",
+    ),
 }
 
 NOT_YET = {}
